@@ -135,7 +135,15 @@ def value_ok(dt, s):
     """True / False / None (None = the oracle does not pin this cell)"""
     if approx(dt, s):
         return None
+    if dt == "f" and fullmatch(dt, s):
+        import math
+        if math.isinf(float(s)):
+            return None          # syntactically valid but beyond the double range: the value range is not pinned
     if dt == "B":
+        if fullmatch(dt, s) and s[0] == "f":
+            import math
+            if any(math.isinf(float(x)) for x in s.split(",")[1:]):
+                return None
         return b_array_ok(s)
     if dt == "oriented_identifier_list_gfa1" and fullmatch(dt, s):
         # a name may contain commas: when splitting on commas does not give NAME[+-] pieces the tokenisation is ambiguous
